@@ -6,6 +6,7 @@ mod rng;
 mod c11;
 mod c06;
 mod c03;
+mod c18;
 
 use std::io::{BufWriter, Write};
 
@@ -27,6 +28,7 @@ fn main() {
                 "C11" => c11::gen(tier, seed, &mut out),
                 "C06" => c06::gen(tier, seed, &mut out),
                 "C03" => c03::gen(tier, seed, &mut out),
+                "C18" => c18::gen(tier, seed, &mut out),
                 _ => {
                     eprintln!("unknown property {}", prop);
                     std::process::exit(2);
@@ -82,6 +84,7 @@ fn replay_one(toks: &[&str]) -> String {
             common::rm_rf(&scratch);
             r
         }
+        "C18" | "C18L" => c18::observe(toks[0], &toks[1..]),
         other => format!("unknown-model {}", other),
     }
 }
